@@ -50,7 +50,13 @@ type Run struct {
 }
 
 func NewRun(p *Prog, prop, tier string) *Run {
-	return &Run{P: p, Property: prop, Tier: tier, FuncsAnalysed: map[string]bool{}, Floors: map[string][2]int{}}
+	r := &Run{P: p, Property: prop, Tier: tier, FuncsAnalysed: map[string]bool{}, Floors: map[string][2]int{}}
+	if p != nil {
+		for _, l := range p.NormLog {
+			r.Notes = append(r.Notes, "normalisation: "+l)
+		}
+	}
+	return r
 }
 
 func (r *Run) add(status, construct, pos, detail string, path []string) *Ob {
